@@ -183,14 +183,18 @@ def run(tier):
             env['LANG'] = 'C'
             env['PYTHONCOERCECLOCALE'] = '0'
             env.pop('PYTHONUTF8', None)
-            env['PYTHONIOENCODING'] = 'utf-8'
+            env.pop('PYTHONIOENCODING', None)      # stdout / stderr are ASCII too, as in a real C-locale process
             args += ['-X', 'utf8=0']
-        p = subprocess.run(args + [script], env=env, capture_output=True, text=True, encoding='utf-8', timeout=300)
+        env['C17_RESULT'] = os.path.join(rd, 'c17_result_%s.json' % enc)
+        p = subprocess.run(args + [script], env=env, capture_output=True, timeout=300)
         oc['configurations'] += 1
         try:
-            results[enc] = json.loads(p.stdout.strip().split('\n')[-1])
+            results[enc] = json.loads(open(env['C17_RESULT'], 'rb').read().decode('utf-8'))
+            # what the library itself wrote to stdout / stderr while importing, writing and parsing (nothing, normally)
+            results[enc]['stdout_bytes'] = len(p.stdout)
+            results[enc]['stderr_bytes'] = len(p.stderr)
         except Exception:
-            results[enc] = {'error': (p.stderr or p.stdout)[-300:]}
+            results[enc] = {'error': (p.stderr or p.stdout)[-300:].decode('utf-8', 'replace')}
     ref = results.get('utf-8')
     if not ref or 'error' in ref:
         raise core.InternalError('UTF-8 reference configuration failed: %r' % ref)
